@@ -252,10 +252,19 @@ def _episode(g, gs0, sup, ep, eo: EpisodeOut, clock, const, plan):
                 else:
                     gs, ss = _call(eo, "step", g.step, gs, budget=budget, slow=sl(i + 1))
                 eo.obs.append(obs_digest(ss))
+            extra = 0
+            while ep.get("until_active") and extra < 15 and not _all_active(gs):
+                gs, ss = _call(eo, "step", g.step, gs, budget=budget)
+                eo.obs.append(obs_digest(ss))
+                extra += 1
         elif ep["api"] == "run":
             gs = gs_init
             for i in range(ep["nsteps"]):
                 gs = _call(eo, "run", g.run, gs, budget=budget, slow=sl(i))
+            extra = 0
+            while ep.get("until_active") and ep["nsteps"] > 0 and extra < 15 and not _all_active(gs):
+                gs = _call(eo, "run", g.run, gs, budget=budget)
+                extra += 1
         elif ep["api"] == "stop_only":
             pass
         ending = ep.get("ending", "stop")
@@ -285,3 +294,19 @@ def _episode(g, gs0, sup, ep, eo: EpisodeOut, clock, const, plan):
 
         eo.status = "exception"
         eo.detail = "".join(traceback.format_exception(None, e, e.__traceback__))[-1500:]
+
+
+def _all_active(gs) -> bool:
+    """True when, in the graph state returned to the user, every node has stepped and every input has received a message
+    (episodes that end earlier cannot be retrieved with get_record() on the pinned tree: TypeError on an empty list, DESIGN 6 D5)."""
+    try:
+        for name, seq in gs.seq.items():
+            if int(onp.asarray(seq)) < 2:
+                return False
+        for name, ins in gs.inputs.items():
+            for iname, i in ins.items():
+                if int(onp.asarray(i.seq)[-1]) < 0:
+                    return False
+    except Exception:
+        return True
+    return True
